@@ -83,6 +83,14 @@ class Mismatch(Exception):
         super().__init__(what)
 
 
+def _can_differ(orc, a, b) -> bool:
+    try:
+        orc.must(orc.kz(a) == orc.kz(b), '')
+        return False
+    except Exception:
+        return True
+
+
 class Oracle:
     def __init__(self, ctx: PathCtx):
         self.ctx = ctx
@@ -372,7 +380,7 @@ class Runner:
     def run(self):
         sc = self.sc
         hfn, hassume = hash_class(sc.hasher)
-        nsym = 1 + max([op[1] for op in sc.ops if len(op) > 1 and isinstance(op[1], int)] + [-1] + ([sc.bulk[1] - 1] if sc.bulk else []))
+        nsym = 1 + max([x for op in sc.ops for x in op[1:] if isinstance(x, int) and op[0] not in ('reserve',)] + [-1] + ([sc.bulk[1] - 1] if sc.bulk else []))
         self.kvars = [z3.BitVec('k%d' % i, KEY_W) for i in range(nsym)]
         assumptions = [z3.ULT(k, z3.BitVecVal(sc.universe, KEY_W)) for k in self.kvars] + hassume(max(sc.universe, (max(sc.prefill) + 1) if sc.prefill else 0))
         env = Env(self.prog, hfn)
@@ -388,6 +396,8 @@ class Runner:
             self.paths += 1
             if isinstance(exc, Violation):
                 self.report(ctx, exc.kind, str(exc), getattr(exc, 'trace', []))
+                for v2 in getattr(exc, 'also', []):
+                    self.report(ctx, v2.kind, str(v2), getattr(v2, 'trace', []))
         ex.run(scenario, on_path)
         self.queries += ex.queries
         self.covered = ex.coverage_valid() if ex.pcs else True
@@ -478,6 +488,7 @@ class Runner:
             it = Interp(self.prog, ctx, env)
         self.kept_ids = set()
         self.live_iter = None
+        self.sets = None
         trace: List[str] = []
         handed: Dict[int, Tok] = {}
         orc = Oracle(ctx)
@@ -584,6 +595,8 @@ class Runner:
             nodes = q.check()
             self.iteration_agrees(d, orc, nodes)
             self.lookups_agree(it, d, orc, handed)
+            if getattr(self, 'end_hook', None) is not None:
+                self.end_hook(it, d)
             self.stats['max_bins'] = max(self.stats['max_bins'], q.stats['bins'])
             self.stats['tree_bins'] += q.stats['tree_bins']
             self.stats['tree_nodes'] += q.stats['tree_nodes']
@@ -593,6 +606,7 @@ class Runner:
                     raise Violation('dropped-under-guard', '%r was handed out under the still-live guard but has been dropped' % (t,))
             d.unpin()
             d.drop_map()
+            self.finish_sets(it)
             live = [t for t in L.live_tokens() if t.id not in self.kept_ids]
             if live:
                 raise Violation('leak', 'never dropped: %s' % live[:6])
@@ -602,6 +616,22 @@ class Runner:
         except Mismatch as m:
             v = Violation('mismatch', m.what)
             v.trace = trace
+            # the functional discrepancy ends the script; the memory epilogue (unpin, drop the map) still runs so that a
+            # retirement / double drop that goes with the discrepancy is reported to the property that owns it
+            v.also = []
+            try:
+                for t in handed.values():
+                    if it.ledger.dropped.get(t.id):
+                        raise Violation('dropped-under-guard', '%r was handed out under the still-live guard but has been dropped' % (t,))
+                if not it.held_locks:
+                    d.unpin()
+                    d.drop_map()
+            except Violation as v2:
+                if v2.kind in ('use-after-free', 'double-free', 'double-drop', 'double-retire', 'retire-freed', 'dropped-under-guard'):
+                    v2.trace = trace + ['  (after the discrepancy above: guard released, map dropped)', '  MIR stack: ' + ' > '.join(reversed(getattr(v2, 'mir_stack', [])[:6]))]
+                    v.also.append(v2)
+            except Exception:
+                pass
             if m.model is not None:
                 ctx.add(z3.BoolVal(True))
             raise v
@@ -847,6 +877,61 @@ class Runner:
                         raise Mismatch('key instance %s was yielded with a value other than its (unchanged) value' % tg)
                 it.drop_value(li['holder'].val, 'iterator drop')
                 self.live_iter = None
+        elif kind == 'extend':
+            # <&HashMap as Extend<(K, V)>>::extend with a harness iterator over the given key variables
+            from .mapdrv import PyIter
+            items = []
+            for j, kv in enumerate(op[1:]):
+                kt = self.keytok(it, kv, '%sx%d' % (tag, j))
+                items.append((kt, Tok('V', next(vcount), None, L)))
+            hm = Holder(d.mref)
+            it.call_fn(d.fn('<map::HashMap as Extend>::extend'), [Ptr(hm, ()), PyIter(items, len(items))])
+            for kt, vt in items:
+                hit = None
+                for e in orc.entries:
+                    if it.ctx.branch(orc.kz(e.ktok) == orc.kz(kt)):
+                        hit = e
+                        break
+                if hit is None:
+                    orc.entries.append(Entry(kt, vt))
+                else:
+                    hit.vtok = vt
+        elif kind == 'clone_eq':
+            # clone() must equal the original, stop being equal after a divergent insert, and drop all its copies
+            c = it.call_fn(d.fn('<map::HashMap as Clone>::clone'), [d.mref])
+            ch = Holder(c)
+            eq = it.call_fn(d.fn('<map::HashMap as PartialEq>::eq'), [d.mref, Ptr(ch, ())])
+            if not bool(eq.v):
+                raise Mismatch('a clone does not compare equal to the map it was cloned from')
+            dc = MapDriver(it, None, 'guard', mapval=c)
+            dc.holder = ch
+            dc.mref = Ptr(ch, ())
+            dc.pin()
+            got = sorted((str(k.tag), v.val) for k, v in dc.iter_all('iter'))
+            want = sorted((str(e.ktok.tag), e.vtok.val) for e in orc.entries)
+            if got != want:
+                raise Mismatch('clone() holds %s, the original %s' % (got, want))
+            dc.insert(Tok('K', 200, 'cl', L), Tok('V', next(vcount), None, L))
+            eq2 = it.call_fn(d.fn('<map::HashMap as PartialEq>::eq'), [d.mref, Ptr(ch, ())])
+            if bool(eq2.v):
+                raise Mismatch('maps of different size compare equal')
+            dc.unpin()
+            dc.drop_map()
+        elif kind == 'index':
+            k = self.keytok(it, op[1], tag)
+            self.kept_ids.add(k.id)
+            w = it.call_fn(d.fn('map_ref::HashMap::with_guard'), [d.mref, d.gref])
+            hw = Holder(w)
+            present = any(not _can_differ(orc, e.ktok, k) for e in orc.entries)
+            try:
+                r = it.call_fn(d.fn('<map_ref::HashMapRef as Index>::index'), [Ptr(hw, ()), d.keyref(k)])
+                v = it.load_ptr(r)
+                hand(v)
+                orc.present_as(k, v, 'index')
+            except Unwind:
+                orc.absent(k, 'index panicked (no entry)')
+        elif kind in ('sinsert', 'sremove', 'stake', 'scontains', 'sget', 'srelations'):
+            self.set_op(it, d, orc, op, tag, L)
         elif kind == 'clear':
             d.clear()
             orc.entries.clear()
@@ -862,6 +947,89 @@ class Runner:
             d.pin()
         else:
             raise ValueError(kind)
+
+    # ---- HashSet facade: two sets A and B built through set::HashSet's own MIR -----------------------------------
+    def set_op(self, it, d, orc, op, tag, L):
+        st = getattr(self, 'sets', None)
+        if st is None:
+            st = {}
+            for nm in ('A', 'B'):
+                sv = it.call_fn(d.fn('set::HashSet::with_hasher'), [Opaque('S')])
+                h = Holder(sv)
+                g = it.call_fn(d.fn('set::HashSet::guard'), [Ptr(h, ())])
+                st[nm] = {'h': h, 'ref': Ptr(h, ()), 'gh': Holder(g), 'elems': []}
+                st[nm]['g'] = Ptr(st[nm]['gh'], ())
+            self.sets = st
+        kind = op[0]
+
+        def member(S, k):
+            # index of the element of S that necessarily equals k, None if necessarily absent; undetermined -> Mismatch
+            for i, e in enumerate(S['elems']):
+                if not _can_differ(orc, e, k):
+                    return i
+            for e in S['elems']:
+                orc.must(orc.kz(e) != orc.kz(k), 'set operation %s on %r: membership is not determined by the path condition (element %r)' % (kind, k, e))
+            return None
+        if kind == 'srelations':
+            A, B = st['A'], st['B']
+            res = {}
+            for nm, fn_, args in (('is_subset', 'set::HashSet::is_subset', [A['ref'], B['ref'], A['g'], B['g']]), ('is_superset', 'set::HashSet::is_superset', [A['ref'], B['ref'], A['g'], B['g']]),
+                                  ('is_disjoint', 'set::HashSet::is_disjoint', [A['ref'], B['ref'], A['g'], B['g']])):
+                res[nm] = bool(it.truth(it.call_fn(d.fn(fn_), args)))
+            a_in_b = [member(B, e) is not None for e in A['elems']]
+            b_in_a = [member(A, e) is not None for e in B['elems']]
+            want = {'is_subset': all(a_in_b), 'is_superset': all(b_in_a), 'is_disjoint': not any(a_in_b)}
+            if res != want:
+                raise Mismatch('set relations %s, expected %s (A=%s, B=%s)' % (res, want, A['elems'], B['elems']))
+            for nm in ('A', 'B'):
+                ln = it.call_fn(d.fn('set::HashSet::len'), [st[nm]['ref']])
+                if int(ln.v) != len(st[nm]['elems']):
+                    raise Mismatch('set %s: len() = %s, %d elements' % (nm, ln.v, len(st[nm]['elems'])))
+            return
+        S = st[op[1]]
+        k = self.keytok(it, op[2], tag)
+        if kind == 'sinsert':
+            r = it.call_fn(d.fn('set::HashSet::insert'), [S['ref'], k, S['g']])
+            i = member(S, k)
+            if bool(it.truth(r)) != (i is None):
+                raise Mismatch('HashSet::insert returned %s, element %s' % (r.v, 'absent' if i is None else 'present'))
+            if i is None:
+                S['elems'].append(k)
+        else:
+            self.kept_ids.add(k.id)
+            kp = d.keyref(k)
+            if kind == 'scontains':
+                r = it.call_fn(d.fn('set::HashSet::contains'), [S['ref'], kp, S['g']])
+                i = member(S, k)
+                if bool(it.truth(r)) != (i is not None):
+                    raise Mismatch('HashSet::contains returned %s' % r.v)
+            elif kind == 'sget':
+                r = it.call_fn(d.fn('set::HashSet::get'), [S['ref'], kp, S['g']])
+                i = member(S, k)
+                if (r.variant == 'Some') != (i is not None) or (i is not None and it.load_ptr(r.fields[0]).tag != S['elems'][i].tag):
+                    raise Mismatch('HashSet::get returned %r' % (r,))
+            elif kind == 'sremove':
+                r = it.call_fn(d.fn('set::HashSet::remove'), [S['ref'], kp, S['g']])
+                i = member(S, k)
+                if bool(it.truth(r)) != (i is not None):
+                    raise Mismatch('HashSet::remove returned %s' % r.v)
+                if i is not None:
+                    S['elems'].pop(i)
+            elif kind == 'stake':
+                r = it.call_fn(d.fn('set::HashSet::take'), [S['ref'], kp, S['g']])
+                i = member(S, k)
+                if (r.variant == 'Some') != (i is not None) or (i is not None and it.load_ptr(r.fields[0]).tag != S['elems'][i].tag):
+                    raise Mismatch('HashSet::take returned %r' % (r,))
+                if i is not None:
+                    S['elems'].pop(i)
+
+    def finish_sets(self, it):
+        st = getattr(self, 'sets', None)
+        if st:
+            for nm in ('A', 'B'):
+                it.drop_value(st[nm]['gh'].val, 'set guard')
+                it.drop_value(st[nm]['h'].val, 'drop(set)')
+            self.sets = None
 
     def iteration_agrees(self, d: MapDriver, orc: Oracle, nodes):
         for which in (('iter', 'keys', 'values') if (self.sc.check_each_step or self.paths % 16 == 0) else ('iter',)):
